@@ -74,13 +74,13 @@ type c11Sender struct {
 
 func c11ID(i int) identity.AgentID {
 	var id identity.AgentID
-	id[0], id[1], id[15] = 0xC1, 0x1F, byte(i+1)
+	id[0], id[1], id[14], id[15] = 0xC1, 0x1F, byte((i+1)>>8), byte(i+1)
 	return id
 }
 
 func c11Idx(id identity.AgentID) int {
-	if id[0] == 0xC1 && id[1] == 0x1F && id[15] >= 1 {
-		return int(id[15]) - 1
+	if id[0] == 0xC1 && id[1] == 0x1F && (id[14] != 0 || id[15] != 0) {
+		return (int(id[14])<<8 | int(id[15])) - 1
 	}
 	return 99
 }
@@ -663,7 +663,7 @@ func c11Reset(f []string) (*c11Net, string) {
 	}
 	n, err1 := strconv.Atoi(f[1])
 	mh, err2 := strconv.Atoi(f[2])
-	if err1 != nil || err2 != nil || n < 1 || n > 24 || len(f) != 3+n {
+	if err1 != nil || err2 != nil || n < 1 || n > 300 || len(f) != 3+n {
 		return nil, "r=bad"
 	}
 	locs := make([][]c11Loc, n)
